@@ -228,7 +228,7 @@ func init() {
 			}
 			return u
 		},
-		Run:         c12Run,
+		Run: c12Run,
 		Bound: func(tier string) map[string]any {
 			return map[string]any{"operations": len(c12Ops(tier)), "depth": c12Depth(tier), "variables": len(c12Vars(tier))}
 		},
